@@ -30,10 +30,16 @@ def judge_records(ctx, recs_path, recs):
 
 def random_inputs(ctx, n):
     rnd = random.Random(ctx.seed)
-    alpha = ["[", "]", "|", "a", "b", "c", " ", "LF", "CR", "/", "NBSP", "TSP", "TAB", "E2", "x", "1"]
+    alpha = ["[", "]", "|", "a", "b", "c", " ", "LF", "CR", "/", "NBSP", "TSP", "TAB", "E2", "x", "1", "A", "B"]
     lines = [["[", "a", "]"], ["[", "b", " ", "c", "]"], ["a"], ["b", "|", "c"], ["x", " ", "|", " ", "E2"], [],
-             ["/", "/", " ", "c"], ["a", "|", "a"], ["[", "a", "]"], ["NBSP", "x"], ["1", " ", "/", "/", "[", "x", "]"]]
+             ["/", "/", " ", "c"], ["a", "|", "a"], ["[", "a", "]"], ["NBSP", "x"], ["1", " ", "/", "/", "[", "x", "]"],
+             ["A"], ["B", "|", "c"], ["[", "A", "]"]]
     out = []
+    # names and categories that differ only in letter case are different ones: every placement over two categories
+    for lo, up in [("a", "A"), ("b", "B"), ("a b", "A b"), ("E2", "x")]:
+        for f in (f"[x]\n{lo}\n[y]\n{up}\n", f"[x]\n{up}\n[y]\n{lo}\n", f"[x]\n{lo}|q\n[y]\nr|{up}\n", f"[{lo}]\n{lo}\n[{up}]\n{up}\n",
+                  f"[x]\n{lo}|{up}\n", f"[x]\nq|{up}\nr|{lo}\n[y]\n"):
+            out.append({"input": [{"\n": "LF", " ": " "}.get(ch, ch) for ch in f.replace("E2", "\u00e9")]})
     for _ in range(n):
         if rnd.random() < 0.5:
             s = [rnd.choice(alpha) for _ in range(rnd.randint(5, 14))]
